@@ -16,7 +16,9 @@ H = 24
 
 
 def frame_of(body, salt=0):
-    hdr = bytearray(b"\x6f\x00" + bytes([body & 0xFF, body >> 8]) + bytes((i + salt) % 256 for i in range(4, 24)))
+    # the command code varies with the body length: receive() frames by the length field only, whatever the command is
+    cmd = [0x6F, 0x70, 0x65, 0x63, 0x72, 0x73, 0x00C8, 0x04, 0x64][(body + salt) % 9]
+    hdr = bytearray(bytes([cmd & 0xFF, cmd >> 8]) + bytes([body & 0xFF, body >> 8]) + bytes((i + salt) % 256 for i in range(4, 24)))
     return bytes(hdr) + bytes(((i * 37 + 11 + salt) % 251) for i in range(body))
 
 
@@ -189,7 +191,7 @@ def seeded(ctx, rnd, thorough):
         for cut in sorted({0, 1, 2, 3, 4, 23, 24, flen - 1} & set(range(0, flen))):
             for end in ("eof", "err"):
                 cases.append(run_recv(body, [cut] if cut else [], end))
-    for mlen in [1, 2, 3, 24, 28, 100, 256, 500, 4024] + ([65535] if thorough else []):
+    for mlen in [1, 2, 3, 24, 28, 100, 256, 500, 4024, 4096, 4097, 5000, 9001] + ([65535] if thorough else []):
         pats = [[mlen], [1, mlen], [1, 1, mlen], [mlen // 2 or 1, mlen], [1] * min(mlen, 40) + [mlen]]
         for _ in range(10 if thorough else 4):
             rest, s = mlen, []
